@@ -3,6 +3,7 @@ import Pathrs.Discipline
 import Pathrs.Capi
 import Pathrs.Kernel.World
 import Pathrs.Ledger
+import Pathrs.Kernel.ProcWorld
 
 /-!
 # Model driver: reads harness transcripts on stdin, replays each case through
@@ -114,6 +115,7 @@ structure Case where
   events : Hist := []
   res : List String := []
   kern : List String := []
+  kernb : List String := []
   fdt : List String := []
   snaps : List (List String) := []
   after : List (List String) := []
@@ -526,6 +528,7 @@ partial def readCases (h : IO.FS.Stream) (cur : Case) (inAfter : Bool) (pendingC
     | _, _ => readCases h { cur with bad := some s!"resp {rest}" } inAfter none emit
   | "res" :: rest => readCases h { cur with res := rest } inAfter pendingCall emit
   | "kern" :: rest => readCases h { cur with kern := rest } inAfter pendingCall emit
+  | "kernb" :: rest => readCases h { cur with kernb := rest } inAfter pendingCall emit
   | "fdt" :: rest => readCases h { cur with fdt := rest } inAfter pendingCall emit
   | "t" :: rest => readCases h { cur with tlines := rest :: cur.tlines } inAfter pendingCall emit
   | ["buf", b] => readCases h { cur with buf := some b } inAfter pendingCall emit
@@ -551,6 +554,41 @@ def judgeDisc (c : Case) : String :=
     | some (cl, _) => s!"disc {c.id} BAD followed open of something that is not a procfs fd link: {showCall cl}"
     | none => s!"disc {c.id} ok calls={c.events.length} follow_opens={follows.length}"
   | some (cl, _) => s!"disc {c.id} BAD {showCall cl}"
+
+/-- the generated tree as a `PWorld` (one mount, no magic-links): validates `PWorld.resolveBeneath` — the trusted
+specification of `openat2(RESOLVE_BENEATH|RESOLVE_NO_XDEV|RESOLVE_NO_MAGICLINKS)` behind the C06/C07 refinement theorems —
+against the live kernel's answer to that very call on the same tree (`kernb` line) -/
+def judgePSpec (c : Case) : String :=
+  let go (flags : Nat) (p : String) : String :=
+    match unhex p, c.tree.mapM parseEntry, c.kernb with
+    | some path, some ents, _ :: _ =>
+      if path.contains 0 then s!"pspec {c.id} skip nul" else
+      let w := specWorld ents
+      let pw : PWorld :=
+        { base := w.root
+          kind := fun fd => match w.kind fd with | .dir => .dir | .lnk => .lnk | .other => .other
+          child := w.child, parent := w.parent, body := w.body, mnt := fun _ => 1, kernelLinks := w.kernelLinks }
+      let rflags := ((cfgVal c "rflags").bind String.toNat?).getD 0
+      let cfg : PWorld.PCfg := { oflags := flags, noSymlinks := hasAll rflags RESOLVE_NO_SYMLINKS, maxLinks := w.kernelLinks }
+      let want : String := match c.kernb with
+        | ["err", e] => s!"err {e}"
+        | "ok" :: "fd" :: rest => s!"ok label={(kvVal rest "label").getD "?"}"
+        | other => s!"? {other}"
+      match PWorld.resolveBeneath pw cfg path with
+      | .error e =>
+        if want = "err 36" then s!"pspec {c.id} skip nametoolong"
+        else if want = s!"err {e}" then s!"pspec {c.id} ok err {e}" else s!"pspec {c.id} DIFF spec=err {e} kernel={want} flags={flags}"
+      | .ok o =>
+        let label := ((o - 4) / 2).toNat
+        let ekind : String := if label = 0 then "d" else match ents[label - 1]? with | some e => e.kind | none => "?"
+        if !(ekind = "d" ∨ ekind = "l" ∨ ekind = "f" ∨ ekind = "h") then s!"pspec {c.id} skip kind {ekind}" else
+        let got := s!"ok label={label}"
+        if got = want then s!"pspec {c.id} ok {got}" else s!"pspec {c.id} DIFF spec={got} kernel={want} flags={flags} kind={ekind}"
+    | _, _, _ => s!"pspec {c.id} skip nokern"
+  match c.op with
+  | ["resolve", nf, p] => go (if nf = "1" then O_PATH ||| O_NOFOLLOW else O_PATH) p
+  | ["open_subpath", fl, p] => match fl.toNat? with | some f => go f p | none => s!"pspec {c.id} skip op"
+  | _ => s!"pspec {c.id} skip op"
 
 /-- `rustix::fs::Dir` opens a private descriptor of its own for a directory stream (the recorder sees `dir_open`
 answered `unit`, and later the `close` of a number it never saw handed out): drop exactly those closes, one per
@@ -626,3 +664,4 @@ def main : IO Unit := do
       IO.println (judgeDisc c)
       IO.println (judgeSpec c)
       IO.println (judgeLedger c)
+      IO.println (judgePSpec c)
